@@ -1,6 +1,6 @@
 (* C01 -- Returned schedules obey task timing.  Statements only. *)
 From Coq Require Import ZArith List Bool String.
-From PS.model Require Import Smt Enc Prog.
+From PS.model Require Import Smt Enc Ind Prog.
 From PS.spec Require Import Spec.
 From PS.proofs Require Import Base C01_proof.
 Import ListNotations.
